@@ -17,7 +17,7 @@ import (
 func init() {
 	Register("C01", &Info{
 		Run:   runC01,
-		Quick: 3000, Thor: 300000,
+		Quick: 3000, Thor: 1200000,
 		Rule: "a world = one fingerprint (every predefined parrot by stratum, randomized seeds, generated specs; never HelloGolang) with explicit BuildHandshakeState followed by 0-6 documented edits (SetClientRandom, SetSNI, append/remove/replace/swap of non-session extensions, Hello.CipherSuites, Hello.SessionId, a second BuildHandshakeState) and Handshake against a plain or HelloRetryRequest-forcing server, optionally as the second connection of a history with a cached session (ticket / PSK binder patch); in a quarter of the worlds one or two further tasks call Handshake on the same UConn after a drawn number of scheduler steps (they queue on the handshake mutex or find the handshake complete); the scheduler snapshots HandshakeState.Hello.Raw when the client's first write is performed; oracle: first hello on the wire == that snapshot byte for byte, every edit visible in the independent parse, Hello.Raw after the handshake - when Handshake returned and again when every task of the connection has finished - == last hello on the wire; non-trivial = >=1 edit applied and a hello reached the wire; distinct = (fingerprint, edit sequence, server kind)",
 		Assumptions: []string{"only the listed public mutators are applied; arbitrary reflection-level edits are out of scope",
 			"expected extension order after an edit is derived by applying the same list edit to the type sequence parsed from the hello built before the edits (no knowledge of extension type ids is taken from the library)"},
